@@ -23,8 +23,8 @@ TYPES = [('Variance', ['sample_variance', 'variance_of_mean', 'error']),
          ('Skewness', ['sample_variance', 'error_mean']),
          ('Kurtosis', ['sample_variance', 'error_mean']),
          ('WeightedMeanWithError', ['sample_variance']),
-         ('Moments4', SAMPLE), ('M4', SAMPLE), ('M5', SAMPLE), ('M6', SAMPLE), ('M8', SAMPLE), ('M10', SAMPLE)]
-MTYPES = ['Moments4', 'M4', 'M5', 'M6', 'M8', 'M10']
+         ('Moments4', SAMPLE), ('M4', SAMPLE), ('M5', SAMPLE), ('M6', SAMPLE), ('M7', SAMPLE), ('M8', SAMPLE), ('M9', SAMPLE), ('M10', SAMPLE)]
+MTYPES = ['Moments4', 'M4', 'M5', 'M6', 'M7', 'M8', 'M9', 'M10']
 
 
 def sentinel_shard(desc):
